@@ -80,3 +80,13 @@ chk("C02", "exploration", "property-based testing (Hypothesis): generated queue/
     "boolean short-circuit results. Search, not proof.",
     "Liveness is bounded (2 s of virtual time after the program's own last clear); async handlers only on queue-only events.",
     "DESIGN.md §4 C02, appendix A.1")
+chk("C07", "exploration", "property-based testing (Hypothesis): generated start/stop request histories vs. a lifecycle automaton, the active-mode list and a before/after registry snapshot",
+    "Histories of direct start()/stop() calls (with explicit priorities), start/stop events posted plainly or as queue "
+    "events, device activity and time gaps - plus requests issued from handlers of the modes' own lifecycle events and "
+    "waiting handlers on starting/stopping - run on four non-game modes with logic blocks, a timer, config players and "
+    "mode code. Checked: per-mode event order, accepted requests are acted on, nothing stuck after a stated horizon, "
+    "active_modes equals the active modes in priority order after every step, no mode-code callback after 'stopped', and "
+    "whenever all modes are stopped the event/switch handler registries, delays, timers, light stacks, coils and config "
+    "player instances equal the snapshot taken before any mode ran. Search, not proof.",
+    "Non-game modes only; liveness bounded (waits <= 60 ms, 3 s quiet); registries compared by owner/function/priority/kwargs keys.",
+    "DESIGN.md §4 C07")
